@@ -13,6 +13,8 @@ import sched_common as S
 import sched_gen as G
 import c07_multi as M
 import c07_midphase as MP
+import c07_globals as GP
+import c07_coq as Q
 from fractions import Fraction as F
 from math import ceil
 import itertools
@@ -281,7 +283,13 @@ def merge_part(run, n_desc):
         for kk in range(k):
             sc, ids = scenario(desc, list(range(k)), only=kk)
             jobs.append((di, None, "solo", kk, ids)); scs.append(sc)
-    fin = [G.finalize(sc) for sc in scs]
+    # one unit grid per description (the joint run's), so that its scenarios share their stream literals
+    fin, groups = [], [di for di, _, _, _, _ in jobs]
+    first = {}
+    for j, di in enumerate(groups):
+        first.setdefault(di, j)
+    for j, sc in enumerate(scs):
+        fin.append(Q.finalize_group(G, [sc], scs[first[groups[j]]])[0])
     results = S.run_impl(run, fin, shards=14)
     flagged = set()
     solo_of = {}
@@ -349,15 +357,13 @@ def merge_part(run, n_desc):
         if len(run.cov["samples"]) < 2:
             run.sample({"tracks": k, "order": order, "ops": [o[0] if o[0] != "tick" else o for o in scs[j]["ops"]],
                         "first_observations": r["obs"][:4]})
-    bad = S.model_disagreements(run, fin, results, chunk=30)
+    bad = Q.model_disagreements_shared(run, S, fin, results, groups, target=40)
     run.cov["traces_validated_against_impl"] += len(fin) - len(bad)
-    for j in bad:
-        if j in flagged:
-            continue
+    for j in [x for x in bad if x not in flagged][:3]:
         S.report_disagreement(run, fin[j], results[j], "correspondence", "Timeline/Track")
     # the instance of the merge theorem itself: the joint history meets the theorem's hypotheses (uncoupled, hist_wf,
     # all_ticks_ok) and the theorem's solo run - Coq's [solo i 0 h] on [tl_at i] - makes the calls of the REAL solo run
-    terms, where = [], []
+    terms, where, tgroups = [], [], []
     for j, (di, order, kind, kk, ids) in enumerate(jobs):
         if kind != "joint" or j in flagged or order != list(range(len(descs[di]["tracks"]))):
             continue
@@ -371,11 +377,18 @@ def merge_part(run, n_desc):
             terms.append("merge_instance %s %s %s %s %s %s" % (
                 natlit(ids[kk2]), zlit(desc["tracks"][kk2]["chan"]), lst([natlit(m) for m in mine]), S.coq_config(fin[j]),
                 S.coq_history(fin[j]), lst([lst([S.coq_call(c) for c in calls]) for calls in dense])))
-            where.append((j, kk2))
+            where.append((j, kk2)); tgroups.append(j)
     hdr = S.HEADER + "From Isobar Require Import Sched.TimeProofs Sched.MergeProofs Props.C07.\n" + MERGE_INSTANCE
-    badi = run.coq_failing(hdr, terms, chunk=30)
+
+    def cands(i0, i1):
+        inner, outer = [], []
+        for j in dict.fromkeys(w[0] for w in where[i0:i1]):
+            a, b = Q.scenario_literals(S, fin[j])
+            inner += a; outer += b
+        return inner + outer
+    badi = Q.failing_shared(run, hdr, terms, cands, Q.bounds_by_group(tgroups, 40), name="instance")
     run.cov["merge_theorem_instances_checked"] = run.cov.get("merge_theorem_instances_checked", 0) + len(terms) - len(badi)
-    for b in badi:
+    for b in badi[:3]:
         j, kk2 = where[b]
         S.report_disagreement(run, fin[j], results[j], "merge-instance", "Timeline/Track",
                               extra={"broken": "the instance of C07_merge for this history: its hypotheses (uncoupled, hist_wf, all_ticks_ok) or the "
@@ -566,13 +579,20 @@ def static_part(run, n):
 
 
 def check(run):
-    n = 260 if run.tier == "quick" else 3000
-    merge_part(run, n)
+    import time
+    secs = run.cov.setdefault("part_seconds", {})
+
+    def part(name, f, *a):
+        t0 = time.time(); f(run, *a); secs[name] = round(time.time() - t0, 1)
+    quick = run.tier == "quick"
+    part("merge", merge_part, 260 if quick else 3000)
     # callbacks that change the set of tracks during the track phase (unschedule / mute a neighbour, stop themselves, schedule)
-    MP.midphase_part(run, 60 if run.tier == "quick" else 700)
-    static_part(run, 240 if run.tier == "quick" else 3000)
+    part("midphase", MP.midphase_part, 60 if quick else 700)
+    part("static", static_part, 240 if quick else 3000)
     # the same static / current-time / globals objects used by tracks of several timelines (one after the other, alternately)
-    M.multi_part(run, 120 if run.tier == "quick" else 1500)
+    part("several-timelines", M.multi_part, 120 if quick else 1500)
+    # globals whose values are patterns, set again over existing values, read by several tracks
+    part("pattern-globals", GP.globals_part, 120 if quick else 1500)
     run.cov["rule"] = ("one case = one run on isobar's Timeline: a joint run of 1-6 tracks on distinct channels (random offsets/durations on a "
                        "common grid so that events coincide, scheduling-order permutations for <= 4 tracks, neighbours that finish / raise in "
                        "tolerant mode / are unscheduled) or the solo run of one of its tracks; non-trivial = joint run of >= 2 tracks with at "
@@ -582,6 +602,8 @@ def check(run):
 def replay(run, doc):
     if doc.get("part") == "multi":
         return M.replay_multi(run, doc)
+    if doc.get("part") == "gpat":
+        return GP.replay_gpat(run, doc)
     if doc.get("part") == "midphase":
         return MP.replay_midphase(run, doc)
     if doc.get("part") == "static":
